@@ -157,7 +157,12 @@ impl FileSystem for OverlayFS {
         let write_path = self.write_path(path)?;
         if !write_path.exists()? {
             self.ensure_has_parent(path)?;
-            self.read_path(path)?.copy_file(&write_path)?;
+            let read_path = self.read_path(path)?;
+            if read_path.metadata()?.file_type != VfsFileType::File {
+                // do not copy up (and thereby shadow) a directory of a lower layer
+                return Err(VfsErrorKind::Other("Not a file".into()).into());
+            }
+            read_path.copy_file(&write_path)?;
         }
         write_path.append_file()
     }
